@@ -12,13 +12,13 @@ use identity_verification::{MethodRelationship, MethodScope};
 use std::cell::Cell;
 use std::rc::Rc;
 
-/// shared fault plan: the call with this ordinal (1-based, counted over both stores) fails; 0 = never
+/// shared fault plan: call number k (1-based, counted over both stores) fails iff bit k-1 of the mask is set; 0 = never
 #[derive(Clone)]
 struct Plan { next: Rc<Cell<u32>>, fail_at: Rc<Cell<u32>>, calls: Rc<Cell<u32>> }
 impl Plan {
   fn new() -> Self { Plan { next: Rc::new(Cell::new(0)), fail_at: Rc::new(Cell::new(0)), calls: Rc::new(Cell::new(0)) } }
   fn arm(&self, n: u32) { self.next.set(0); self.fail_at.set(n); }
-  fn hit(&self) -> bool { self.next.set(self.next.get() + 1); self.calls.set(self.next.get()); self.fail_at.get() != 0 && self.next.get() == self.fail_at.get() }
+  fn hit(&self) -> bool { self.next.set(self.next.get() + 1); self.calls.set(self.next.get()); let k = self.next.get(); k <= 32 && (self.fail_at.get() >> (k - 1)) & 1 == 1 }
 }
 struct FaultyKeys { inner: JwkMemStore, plan: Plan }
 struct FaultyIds { inner: KeyIdMemstore, plan: Plan }
@@ -34,7 +34,11 @@ impl JwkStorage for FaultyKeys {
     if self.plan.hit() { return Err(KeyStorageError::new(KeyStorageErrorKind::Unavailable)); }
     self.inner.delete(key_id).await
   }
-  async fn exists(&self, key_id: &KeyId) -> KeyStorageResult<bool> { self.inner.exists(key_id).await }
+  async fn exists(&self, key_id: &KeyId) -> KeyStorageResult<bool> {
+    // (not called by generate / purge on the pinned tree; faulted like every other call when a plan is armed)
+    if self.plan.fail_at.get() != 0 && self.plan.hit() { return Err(KeyStorageError::new(KeyStorageErrorKind::Unavailable)); }
+    self.inner.exists(key_id).await
+  }
 }
 #[async_trait(?Send)]
 impl KeyIdStorage for FaultyIds {
@@ -63,7 +67,7 @@ fn is_undo_failed(e: &JwkStorageDocumentError) -> bool { matches!(e, JwkStorageD
 
 async fn generate_all_or_nothing() -> Result<(), String> {
   for scope in scopes() {
-    for fail_at in 0..=4u32 {
+    for fail_at in 0..32u32 {
       let plan = Plan::new(); let s = storage(&plan); let mut d = doc();
       // one method already present, so "unchanged" is not trivially "empty"
       d.generate_method(&s, JwkMemStore::ED25519_KEY_TYPE, JwsAlgorithm::EdDSA, Some("first"), MethodScope::VerificationMethod).await.map_err(|e| format!("setup: {e}"))?;
@@ -91,7 +95,7 @@ async fn generate_all_or_nothing() -> Result<(), String> {
 async fn purge_all_or_nothing(with_reference: bool) -> Result<(), String> {
   for scope in scopes() {
     if with_reference && scope != MethodScope::VerificationMethod { continue; }
-    for fail_at in 0..=4u32 {
+    for fail_at in 0..32u32 {
       let plan = Plan::new(); let s = storage(&plan); let mut d = doc();
       d.generate_method(&s, JwkMemStore::ED25519_KEY_TYPE, JwsAlgorithm::EdDSA, Some("keep"), MethodScope::VerificationMethod).await.map_err(|e| format!("setup: {e}"))?;
       let frag = d.generate_method(&s, JwkMemStore::ED25519_KEY_TYPE, JwsAlgorithm::EdDSA, Some("target"), scope).await.map_err(|e| format!("setup: {e}"))?;
